@@ -49,6 +49,8 @@ LAYOUTS = {
                       'development/2.0', 'development/2.1']),
     'd3': dict(chain=['development/1.0', 'development/2.0',
                       'development/3.0']),
+    'd1s2d2': dict(chain=['development/1.0', 'stabilization/2.0.0',
+                          'development/2.0']),
     's1d3': dict(chain=['stabilization/1.0.0', 'development/1.0',
                         'development/2.0', 'development/3.0']),
     'd5': dict(chain=['development/1.0', 'development/1.1',
@@ -306,9 +308,10 @@ class World:
             # the clone URL carries the robot's credentials, built the way
             # the github / bitbucket clients build it; git maps it to the
             # local bare repository (url.<path>.insteadOf), so real git works
-            from urllib.parse import quote
+            # (both clients do `from urllib.parse import quote_plus as quote`)
+            from urllib.parse import quote_plus
             self.cred_url = 'https://%s:%s@githost.invalid/%s/%s.git' % (
-                quote(ROBOT), quote(password), OWNER, SLUG)
+                quote_plus(ROBOT), quote_plus(password), OWNER, SLUG)
             self.git('config', '--global', 'url.%s.insteadOf' % self.bare,
                      self.cred_url, cwd=self.dir)
         self.repos = {u: self.clients[u].get_repository(slug=SLUG,
